@@ -692,6 +692,14 @@ class DivideExpression(BinaryExpression):
             return one / two
 
 
+def _to_float(value: Any) -> float:
+    """float(value), with integers beyond the range of a double mapped to +-inf"""
+    try:
+        return float(value)
+    except OverflowError:
+        return math.inf if value > 0 else -math.inf
+
+
 class PowerExpression(BinaryExpression):
     """Raise one to the power of two"""
 
@@ -718,8 +726,12 @@ class PowerExpression(BinaryExpression):
             # Python integers are exact at any magnitude (numpy wraps at 64 bits and
             # refuses negative integer exponents)
             if two >= 0:
-                return int(one) ** int(two)
-            return np.power(float(one), two)
+                # ...as long as the result can be materialised: beyond ~1.2 million
+                # digits fall through to the floating point power (which overflows to
+                # inf) rather than computing for hours
+                if abs(int(one)) <= 1 or int(two) * int(one).bit_length() <= 1 << 22:
+                    return int(one) ** int(two)
+            return np.power(_to_float(one), _to_float(two))
         return np.power(one, two)
 
     def __str__(self) -> str:
